@@ -16,6 +16,7 @@ TARGET = "puan.ndarray"
 CONTRACTS = {
     # ---- id / position bridges (C20) -----------------------------------------------------------------------
     "variable_ndarray.__new__": {"props": ["C17", "C20"], "why": "array view + variables (columns) + index (rows); shape must agree"},
+    "variable_ndarray._default_variable_list": {"props": ["C20"], "why": "support variable first (if any column), then boolean variables 1..n-1"},
     "variable_ndarray.__array_finalize__": {"props": ["C17"], "why": "views / copies carry variables and index"},
     "variable_ndarray.variable_indices": {"props": ["C20"], "cases": ["variable_dtype == puan.Dtype.BOOL"],
                                           "why": "BOOL: columns whose bounds are (0,1); INT: the others (a partition)"},
@@ -77,6 +78,11 @@ class variable_ndarray:
         if (arr.index.size, arr.variables.size) != (arr.shape[arr.ndim - 2], arr.shape[arr.ndim - 1]):
             raise ValueError()
         return arr
+
+    @staticmethod
+    def _default_variable_list(n, default_bounds_type="bool"):
+        return [puan.variable.support_vector_variable() for _ in range(numpy.clip(n, a_min=0, a_max=1))] + \
+            [puan.variable(i, dtype=default_bounds_type) for i in range(1, n)]
 
     def __array_finalize__(self, obj):
         if obj is None:
